@@ -52,6 +52,35 @@ def binop_cells(widths, rng=None, with_ints=True):
                     if nz and ((order == "vi" and k == 0)):
                         continue
                     cells.append(_bin_int_cell(name, tmpl, vrule, nz, tv, k, order, tr))
+    # typed constant (op) signal and signal (op) typed constant: the reflected / direct replacement paths with a
+    # compile-time operand of a vector or Bit type (int literals are above, constant (op) constant is C09)
+    from ..cells import literal_src
+    cw = [w for w in widths if w >= 2][:2] or [max(widths)]
+    ctys = [Ty(k, w) for k in ("BV", "U", "S") for w in cw] + [BIT]
+    for name, (tmpl, trule, vrule, nz) in SP.BINOPS.items():
+        if name in ("shl", "shr"):
+            continue
+        for tc, tv in itertools.product(ctys, ctys):
+            for order in ("cv", "vc"):
+                ta, tb = (tc, tv) if order == "cv" else (tv, tc)
+                tr = trule(ta, tb)
+                if tr is None:
+                    continue
+                wc = 1 if tc.kind == "Bit" else tc.w
+                for bits in sorted({0, 1, (1 << wc) - 1, 1 << (wc - 1)}):
+                    cm = PyP.wrap(bits, wc, True) if tc.signed else bits
+                    if nz and order == "vc" and cm == 0:
+                        continue
+                    lit = literal_src(tc, bits)
+                    if order == "cv":
+                        expr = tmpl.format(a=lit, b="{a}")
+                        spec = lambda P, a, cm=cm, ta=ta, tb=tb, tr=tr, vrule=vrule: vrule(P, P.const(cm), a, ta, tb, tr)
+                        assume = (lambda P, a: a != 0) if nz else None
+                    else:
+                        expr = tmpl.format(a="{a}", b=lit)
+                        spec = lambda P, a, cm=cm, ta=ta, tb=tb, tr=tr, vrule=vrule: vrule(P, a, P.const(cm), ta, tb, tr)
+                        assume = None
+                    cells.append(Cell(key=f"{name}|{ta}|{tb}|const{bits}|{order}", ins=[("a", tv)], out=_out_ty(tr), body="{o} <<= " + expr, spec=spec, assume=assume))
     # shifts: constant amounts 0..w+1 and run-time Unsigned[1..2]
     for name in ("shl", "shr"):
         tmpl, trule, vrule, nz = SP.BINOPS[name]
@@ -162,6 +191,13 @@ def logic_cells(widths):
                       spec=lambda P, a, b, c: P.lor(P.lor(a != 0, b != 0), c != 0)))
     cells.append(Cell(key="all", ins=[("a", BIT), ("b", BIT), ("c", BIT)], out=BIT, body="{o} <<= all([{a}, {b}, {c}])",
                       spec=lambda P, a, b, c: P.land(P.land(a != 0, b != 0), c != 0)))
+    for consts, tag in ((("False", "True"), "FT"), (("True", "False"), "TF"), (("True", "True"), "TT"), (("0", "Bit(1)"), "0B")):
+        c1, c2 = consts
+        v1, v2 = (c1 in ("True", "Bit(1)")), (c2 in ("True", "Bit(1)"))
+        cells.append(Cell(key=f"all_mixed|{tag}", ins=[("a", BIT), ("u", U(2))], out=BIT, body=f"{{o}} <<= all([{{a}}, {c1}, {{u}}, {c2}])",
+                          spec=lambda P, a, u, v1=v1, v2=v2: P.land(P.land(a != 0, u != 0), v1 and v2)))
+        cells.append(Cell(key=f"any_mixed|{tag}", ins=[("a", BIT), ("u", U(2))], out=BIT, body=f"{{o}} <<= any([{{a}}, {c1}, {{u}}, {c2}])",
+                          spec=lambda P, a, u, v1=v1, v2=v2: P.lor(P.lor(a != 0, u != 0), v1 or v2)))
     cells.append(Cell(key="any_gen", ins=[("a", BV(3))], out=BIT, body="{o} <<= any([bit for bit in {a}])",
                       spec=lambda P, a: a != 0))
     cells.append(Cell(key="all_gen", ins=[("a", BV(3))], out=BIT, body="{o} <<= all([bit for bit in {a}])",
@@ -274,6 +310,11 @@ def run(tier: str) -> int:
                             rep.stats.sample({"cell": key, "body": res.cell.body, "verdict": "unsat (output == spec for all operand values)"})
                     elif res.status == "mismatch":
                         rep.violation(key, f"emitted logic differs from documented value: {res.detail['inputs_math']} -> got bits {res.detail['got_bits']}, want {res.detail['want_bits']}", res.detail)
+                    elif res.status == "rejected" and "|const" in res.cell.key and res.cell.key.endswith(("|cv", "|vc")):
+                        # a typed compile-time constant as one operand: forms cohdl does not accept (the primitive's own
+                        # operator raises instead of deferring to the signal's reflected operator) yield no value to compare
+                        counts["const-operand-rejected"] = counts.get("const-operand-rejected", 0) + 1
+                        counts["rejected"] -= 1
                     elif res.status == "rejected":
                         rejected.append((key, res.detail))
                         rep.violation(key + "|rejected", f"well-typed expression rejected: {res.detail}", {"detail": res.detail, "body": res.cell.body})
